@@ -47,6 +47,8 @@ pub struct HistCfg {
     /// weight of navigation steps: the caller reads the children of a node in mid-history and keeps the handles it
     /// finds (snapshots of merged text nodes among them), then edits around and with them
     pub w_navigate: u32,
+    /// namespace declarations are set through the DOM too (attribute names xmlns, xmlns:p, xmlns:q; elements that carry nothing else)
+    pub ns_names: bool,
 }
 
 fn pick_str(g: &mut Genes, pool: &[&str]) -> String {
@@ -73,6 +75,8 @@ pub fn gen_history(g: &mut Genes, cfg: &HistCfg) -> Json {
     let merged = if cfg.w_navigate > 0 { g.chance(1, 2) } else { g.chance(1, 4) };
     let n = g.range(0, cfg.max_ops);
     let names = if cfg.safe_strings { SAFE_NAMES } else { NAMES };
+    const NS_NAMES: &[&str] = &["e", "a", "b", "k", "xmlns:q", "xmlns:p", "xmlns", "p:a", "q:k"];
+    const NS_VALUES: &[&str] = &["urn:1", "urn:2", "urn:d", "x"];
     let data = if cfg.safe_strings { SAFE_DATA } else { DATA };
     let mut ops: Vec<Json> = vec![];
     for _ in 0..n {
@@ -80,6 +84,23 @@ pub fn gen_history(g: &mut Genes, cfg: &HistCfg) -> Json {
         if class == 5 {
             let d = g.raw();
             let rp = g.raw();
+            if cfg.ns_names && g.chance(1, 4) {
+                // an element that carries nothing but declarations (or one plain attribute, or a child), put in front of a child /
+                // in place of a child / at the end of an element
+                let en = ["e", "a", "b", "p:a"][g.pick(4)];
+                ops.push(json!({"op": "create_element", "d": d, "name": en}));
+                let newest = json!([65535, "recent"]);
+                for _ in 0..(1 + g.pick(2)) {
+                    ops.push(json!({"op": "set_attr", "e": newest.clone(), "name": pick_str(g, NS_NAMES), "value": pick_str(g, NS_VALUES)}));
+                }
+                let q = json!([rp, "element"]);
+                match g.weighted(&[3, 2, 1]) {
+                    0 => ops.push(json!({"op": "insert_before", "p": q.clone(), "c": newest, "r": [g.raw(), "child-of", q]})),
+                    1 => ops.push(json!({"op": "replace", "p": q.clone(), "n": newest, "o": [g.raw(), "child-of", q]})),
+                    _ => ops.push(json!({"op": "append", "p": q, "c": newest})),
+                }
+                continue;
+            }
             let pk = ["element", "container", "attr", "detached-element", "document"][g.weighted(&[8, 2, 2, 2, 1])];
             let pspec = json!([rp, pk]);
             // often a text-like node is put next to what is there first, so that the parent shows a run of several pieces
